@@ -148,7 +148,9 @@ def run(ctx):
     F = ctx.facts(f)
     keys = F.keys
     fo = Folder(u)
-    shk = '%s#%s' % (params_of(f)[1]['name'], params_of(f)[1]['id'])        # the 400-year shift count (second parameter)
+    # the 400-year shift count (second parameter), keyed as the facts engine keys it (a parameter every caller binds to
+    # one value is keyed as that value)
+    shk = keys.subst.get(params_of(f)[1]['id'], '%s#%s' % (params_of(f)[1]['name'], params_of(f)[1]['id']))
     mults = [x for x in walk(f) if x.get('kind') == 'BinaryOperator' and x.get('opcode') == '*' and
              any(keys.key(c) == shk for c in kids(x))]
     for x in mults:
